@@ -10,7 +10,8 @@ def run(ctx):
 
     n_sync, n_racy, maxops = (300, 150, 30) if ctx.tier == "quick" else (6000, 3000, 60)
     lines = (ctx.harness(["-seed", ctx.seed, "-n", n_sync, "-maxops", maxops]) or []) + \
-            (ctx.harness(["-seed", ctx.seed + 7919, "-n", n_racy, "-maxops", maxops, "-racy"]) or [])
+            (ctx.harness(["-seed", ctx.seed + 7919, "-n", n_racy, "-maxops", maxops, "-racy"]) or []) + \
+            (ctx.harness(["-seed", ctx.seed + 104729, "-n", n_sync // 2, "-maxops", maxops, "-reconciler"]) or [])
     if not getattr(ctx, "harness_ok", False):
         ctx.broken("harness does not build against the current tree", detail="\n".join(ctx.build_errors))
 
@@ -57,7 +58,8 @@ def run(ctx):
     ctx.finish({
         "evaluations": len(lines),
         "distinct_nontrivial": nontrivial,
-        "rule": "schedules of send/release/cancel over the real EventLoop (sync: model equality + judge; racy: judge only); "
+        "rule": "schedules of send/release/cancel over the real EventLoop (sync: model equality + judge; racy: judge only; reconciler: "
+                "events delivered through the real controller.Reconciler as upserts/deletes, identity re-read from the event objects); "
                 "non-trivial = distinct schedules in which at least two batches were handled",
         "samples": model_in[:3] + judge_in[-2:],
         "traces_validated_against_impl": len(model_in) - diffs,
